@@ -1034,7 +1034,14 @@ def run(ctx):
     prog = ctx.prog("basic", "N")
     return [rule_eof_before_use(prog), rule_short_fread(prog), rule_static_state(prog),
             rule_failures_propagate(prog), rule_table_contradiction(prog), rule_extension_needs_byte(prog), rule_every_file_decoded(prog),
-            rule_success_only_at_end(prog)]
+            rule_success_only_at_end(prog), _shared_body_rule(prog)]
+
+
+def _shared_body_rule(prog):
+    from . import c03
+    r = c03.rule_whole_body_listed(prog)
+    r.rule = "R-C09-9"      # the terminator is not part of the line: a token cut off by the end of the line is diagnosed
+    return r
 
 
 SELFTESTS = [
